@@ -474,6 +474,48 @@ func ruleCOW5(r *Run) {
 			}
 		}
 
+		// (a') … on every path: for a non-nil receiver no return is reached without reading each field of the
+		// receiver (the read that feeds the copy). An early `return empty` under any other condition (e.g. a liveness
+		// test that overlooks one of the fields) silently drops that subtree from the next snapshot
+		{
+			var skipped []string
+			for i := 0; i < st.NumFields(); i++ {
+				f := st.Field(i)
+				readsF := func(x ssa.Instruction) bool {
+					switch y := x.(type) {
+					case *ssa.FieldAddr:
+						return fieldOfAddr(y) == f && (y.X == ssa.Value(recv) || p.onlyFrom(y.X, recv))
+					case *ssa.Field:
+						if sst, ok := y.X.Type().Underlying().(*types.Struct); ok && sst.Field(y.Field) == f {
+							return true
+						}
+					}
+					return false
+				}
+				q := pathQuery{fn: fn, target: isReturn, barrier: readsF,
+					edgeOK: func(b *ssa.BasicBlock, succ int) bool {
+						ifi := blockIf(b)
+						if ifi == nil {
+							return true
+						}
+						g := guardFact{Cond: ifi.Cond, True: succ == 0, If: ifi}
+						if x, y, op, ok := g.cmp(); ok && isNilConst(y) && x == ssa.Value(recv) && op == token.EQL {
+							return false // the receiver is assumed non-nil
+						}
+						return true
+					}}
+				if w, _ := q.find(); w != nil {
+					skipped = append(skipped, f.Name())
+				}
+			}
+			k := key + "/carries-on-every-path"
+			if len(skipped) > 0 {
+				r.bad(k, fn.Pos(), "for a non-nil receiver %s can return without reading its field(s) %s: on that path (an early return under a condition other than `receiver == nil`) the copy does not carry them and the routes/handlers below vanish from the next snapshot", key, strings.Join(skipped, ", "))
+			} else {
+				r.ok(k, fn.Pos(), "for a non-nil receiver every path to a return reads every field of the receiver")
+			}
+		}
+
 		// (b) sharing: every value stored into the result graph whose type gives access to in-place-mutated memory must be fresh
 		fromReceiver := func(v ssa.Value) (bool, string) {
 			for _, o := range p.origins(v, originOpts{throughSlice: true, throughConvert: true, throughAssert: true}) {
